@@ -486,7 +486,7 @@ func (obj *Flavor) LoadForm() slip.Object {
 	for i, k := range keys {
 		ksym := slip.Symbol(k)
 		if v := obj.defaultVars[k]; v != nil {
-			ivs[i] = slip.List{ksym, v}
+			ivs[i] = slip.List{ksym, valueForm(v)}
 		} else {
 			ivs[i] = ksym
 		}
@@ -581,10 +581,27 @@ func (obj *Flavor) LoadForm() slip.Object {
 func (obj *Flavor) inheritedVar(k string, v slip.Object) bool {
 	for _, f := range obj.inherit {
 		if iv, has := f.defaultVars[k]; has {
-			return v == iv
+			return slip.ObjectEqual(v, iv)
 		}
 	}
 	return false
+}
+
+// valueForm returns a form that evaluates to the value. The default of an
+// instance variable is kept as a value while defflavor evaluates what it
+// reads so a symbol or a list has to be quoted.
+func valueForm(v slip.Object) slip.Object {
+	switch tv := v.(type) {
+	case slip.Symbol:
+		if 0 < len(tv) && tv[0] != ':' && !strings.EqualFold(string(tv), "t") {
+			return slip.List{slip.Symbol("quote"), tv}
+		}
+	case slip.List:
+		if 0 < len(tv) {
+			return slip.List{slip.Symbol("quote"), tv}
+		}
+	}
+	return v
 }
 
 func appendStringSliceOption(df slip.List, name string, ss []string) slip.List {
